@@ -8,12 +8,14 @@ import os
 import shutil
 import tempfile
 import tokenize
+import warnings
 from pathlib import Path
 
 from harness import core
 from harness.gen import c07mod
 from harness.impl import pyast
 
+warnings.filterwarnings("ignore", category=SyntaxWarning)  # generated docstrings / rewritten files are parsed by the oracle
 MODULE = "CddVerif.Properties.C07"
 THEOREMS = [
     "C07.frame_residue",
@@ -40,6 +42,7 @@ THEOREMS = [
     "C07.header_not_full_kwarg",
     "C07.header_not_full_posonly",
     "C07.header_return_not_preserved_stray_arrow",
+    "C07.header_wrong_paren_decorator",
 ]
 CONFIGS = [(fmt, ta, nww) for fmt in ("rest", "google", "numpydoc") for ta in (True, False) for nww in (None, True)]
 
@@ -251,7 +254,7 @@ def _impl_one(case):
 # the property's oracle, on the real before / after files
 # ------------------------------------------------------------------------------------------------
 DEF_KINDS = ("FunctionDefinitionStart", "ClassDefinitionStart")
-PRIORITY = ["unaligned", "stray-arrow", "same-line-tail", "indent-under-4", "header-last-node", "async-docstring-removed", "header-resynth",
+PRIORITY = ["unaligned", "stray-arrow", "wrong-open-paren", "same-line-tail", "indent-under-4", "header-last-node", "async-docstring-removed", "header-resynth",
             "docstring-removed", "return-type-changed"]
 
 
@@ -414,6 +417,16 @@ def _lead_ws(value: str) -> int:
     return len(s) - len(s.lstrip())
 
 
+def _wrong_open_paren(v: str) -> bool:
+    """Does `value.find("(", function_name_starts_at)` miss the parenthesis that opens the parameter list?  (It does when `def` is
+    preceded by neither a blank nor `)` — a tab, a newline — and something before it, e.g. a decorator, has a parenthesis.)"""
+    import re
+
+    start = 4 if v.startswith("def ") else (lambda i: v.find(")def ") if i == -1 else i)(v.find(" def ")) + 4 + 1
+    m = re.search(r"\bdef\s+\w+\s*\(", v)
+    return bool(m) and v.find("(", start) != m.end() - 1
+
+
 def align(nb, na, parses):
     """Align the real CST before / after the splice (the frame property makes this possible) -> list of changes:
     {what, start, end (after-file line numbers of the changed text), hdr (the header node it belongs to), flags}."""
@@ -454,6 +467,8 @@ def align(nb, na, parses):
             real_arrows = 1 if returns_of.get(x["value"]) else 0
             if x["value"].count("->") > real_arrows:
                 fl.append("stray-arrow")
+            if _wrong_open_paren(x["value"]):
+                fl.append("wrong-open-paren")
             bp, ap = x["value"][: max(x["value"].rfind(")"), 0)], y["value"][: max(y["value"].rfind(")"), 0)]
             fl.append("header-resynth" if bp != ap else "return-type-changed")
             s, e = span(y)
@@ -623,6 +638,7 @@ WITNESSES = [
     ("w-posonly", ["C07-resynth-posonly"], "def f(a, /, b):\n" + REST_DOC.replace(" a", " b") + "    pass\n", ("rest", True, None), "def f(b: int):"),
     ("w-ret-paren", [], "def f(a) -> T[()]:\n" + REST_DOC + "    pass\n", ("rest", True, None), "def f(a: int) -> T[()]:"),
     ("w-stray-arrow", ["C07-stray-arrow"], 'def f(a) -> "g(x) -> y":\n' + REST_DOC + "    pass\n", ("rest", True, None), 'def f(a: int) -> y":'),
+    ("w-deco-paren", ["C07-wrong-open-paren"], "@dec(1) \ndef g(a):\n" + REST_DOC + "    pass\n", ("rest", True, None), "@dec(a: int):"),
     ("w-header-comment", ["C07-resynth-comment"], "def f(\n    a,  # first\n):\n" + REST_DOC + "    pass\n", ("rest", True, None), "def f(a: int):"),
     ("w-tail-comment", ["C07-tail-invalid"], "def g(a):  # c\n    return a\n", ("rest", False, None), None),
     ("w-tail-docstring", ["C07-tail-statements", "C07-tail-lines"], 'def g(a):  # c\n  """Doc.\n\n  :param a: the a\n  :type a: ```int```\n  """\n  return a\n',
@@ -645,7 +661,7 @@ def gen_cases(chk: core.Check):
 
     for wid, _, src, cfg, _ in WITNESSES:
         add(src, cfg, "witness", [wid], wid=wid)
-    n_single, n_grid, n_fail, n_mut = (900, 60, 150, 120) if chk.quick else (9000, 900, 1500, 1500)
+    n_single, n_grid, n_fail, n_mut = (2400, 150, 400, 300) if chk.quick else (24000, 1500, 4000, 3000)
     for _ in range(n_single):
         src, feats = c07mod.gen_module(rng)
         add(src, rng.choice(CONFIGS), "structured", feats)
@@ -887,7 +903,8 @@ def run(chk: core.Check) -> int:
         chk.notes.append("finding %s: its witness no longer fails on the real code (stale)" % fid)
     chk.coverage.update({"input_kinds": dict(kinds), "outcomes": dict(outcomes), "configs": dict(cfgs), "features": dict(feats), "errors": dict(errs),
                          "cst_changes": dict(change_kinds), "splices_compared": len(splice_idx), "ast_level_compared": len(ast_reqs),
-                         "signatures_compared": len(sig_items), "stale_findings": stale})
+                         "signatures_compared": len(sig_items), "stale_findings": stale,
+                         "edit_extraction_failed": sum(1 for r in res if r["edit_error"] is not None)})
     return chk.finish("inputs: generated modules (functions, async functions, methods, nested definitions, classes; defaults, annotations, *args, **kwargs, "
                       "keyword-only, positional-only, multi-line headers, decorators with parentheses, return annotations with parentheses, stubs, three docstring "
                       "styles or none, comments, 2-space / tab / 4-space bodies) x 12 configurations; failure injection in the CST stage; malformed files; "
